@@ -22,7 +22,8 @@ import os
 
 from harness.check import Component, case_key
 
-LEAN_TARGETS = ["Aiortc.Props.C03"]
+LEAN_TARGETS = ["Aiortc.Props.C03", "Aiortc.Props.C03Iter"]
+AUDIT_PROPS = ["C03", "C03Iter"]
 DRIVERS = ["Negotiate"]
 MANIFEST = {
     "technique": "Lean 4 theorems over an executable model of the pure cores of createOffer / setLocalDescription / "
